@@ -24,6 +24,7 @@ import hashlib
 import json
 import multiprocessing as mp
 import os
+import re
 import sys
 import time
 import traceback
@@ -229,15 +230,27 @@ def _load(modname):
     return importlib.import_module(f"checks.{modname}")
 
 
+def _budget(mod, tier):
+    """The check's budget, scaled down for the (secondary) optimised-interpreter pass."""
+    bud = dict(mod.budget(tier))
+    scale = float(os.environ.get("VERIF_BUDGET_SCALE", "1") or 1)
+    if scale != 1:
+        bud["examples"] = max(20, int(bud.get("examples", 0) * scale))
+        bud["time_s"] = max(15, float(bud.get("time_s", 60)) * scale)
+    return bud
+
+
 def _worker(args):
     modname, tier, seed, shard, nshards, deadline = args
     try:
         mod = _load(modname)
         stats = Stats(mod, deadline)
-        bud = mod.budget(tier)
+        bud = _budget(mod, tier)
 
         # ---- phase 1: bounded-exhaustive enumeration (sharded by index)
         enum = getattr(mod, "enumerate_cases", None)
+        if os.environ.get("VERIF_SUBPASS"):
+            enum = None         # the secondary pass samples; the exhaustive core belongs to the main pass
         enum_done = True
         if enum is not None:
             res = enum(tier, shard, nshards)
@@ -308,6 +321,51 @@ def _worker(args):
             by_phase=collections.Counter(),
             enum_done=False,
         )
+
+
+def _optimised_interpreter_pass(mod, modname, tier, seed):
+    """
+    The same check once more, with a fraction of the Hypothesis budget, in an interpreter started with -O
+    (`assert` statements and `if __debug__:` blocks are compiled away): library code that does real work inside an
+    assert behaves differently there.  -> (info for the evidence, [(replay path, kind, detail)])
+    A pass that cannot be completed (exit 2, time-out) is reported as inconclusive, never as a violation.
+    """
+    import subprocess
+
+    scale = "0.25" if tier == "quick" else "0.06"
+    env = dict(os.environ, VERIF_SUBPASS="O", VERIF_NO_EVIDENCE="1", VERIF_BUDGET_SCALE=scale, PYTHONHASHSEED="0", PYTHONDONTWRITEBYTECODE="1")
+    env.pop("PYTHONOPTIMIZE", None)
+    cmd = [sys.executable, "-O", os.path.join(VERIF, "run.py"), mod.ID, "--tier", tier, "--seed", str(seed)]
+    t0 = time.time()
+    try:
+        p = subprocess.run(cmd, env=env, stdout=subprocess.PIPE, stderr=subprocess.PIPE, timeout=1500, cwd=VERIF)
+        out, rc = p.stdout.decode(errors="replace"), p.returncode
+    except subprocess.TimeoutExpired:
+        return dict(status="inconclusive: timed out", wall_s=round(time.time() - t0, 1)), []
+    found, lines = [], out.splitlines()
+    for i, l in enumerate(lines):
+        m = re.match(r"VIOLATION property=\S+ replay=(\S+)", l)
+        if not m:
+            continue
+        path = m.group(1)
+        nxt = lines[i + 1] if i + 1 < len(lines) else ""
+        m2 = re.match(r"\s+kind=(\S+) detail=(.*)", nxt)
+        kind, detail = (m2.group(1), m2.group(2)) if m2 else ("?", "")
+        try:
+            data = json.load(open(path))
+            data["python_flags"] = ["-O"]
+            data["note_interpreter"] = "found by the optimised-interpreter pass: --replay re-runs it under `python -O`"
+            with open(path, "w") as f:
+                json.dump(data, f, indent=1, default=repr)
+        except Exception:  # noqa
+            pass
+        found.append((path, kind, detail))
+    summary = next((l for l in reversed(lines) if "evaluations=" in l), "")
+    m3 = re.search(r"evaluations=(\d+)", summary)
+    info = dict(status=("completed" if rc in (0, 1) else "inconclusive: the pass ended with exit code %d" % rc),
+                interpreter="python -O (asserts and `if __debug__:` blocks compiled away)", budget_scale=float(scale),
+                evaluations=int(m3.group(1)) if m3 else 0, violations=len(found), wall_s=round(time.time() - t0, 1))
+    return info, found
 
 
 def shrink_ops(mod, case, kind):
@@ -507,7 +565,8 @@ def run_replay(modname, path):
 def main(modname, tier, seed):
     t0 = time.time()
     mod = _load(modname)
-    bud = mod.budget(tier)
+    bud = _budget(mod, tier)
+    subpass = os.environ.get("VERIF_SUBPASS")
     nshards = int(bud.get("shards", 16))
     deadline = t0 + float(bud.get("time_s", 60 if tier == "quick" else 900))
     kf_open = known_findings()[0].get(mod.ID, {})
@@ -565,6 +624,8 @@ def main(modname, tier, seed):
     # ---- known-finding probes
     kf_lines = []
     probes = getattr(mod, "probes", None)
+    if subpass:
+        probes = None       # a known finding is described (and probed) as it shows in a normal interpreter
     if probes is not None:
         for key, fn in probes():
             if key not in kf_open:
@@ -592,7 +653,7 @@ def main(modname, tier, seed):
     # ---- optional coverage-guided phase (atheris / libFuzzer), one fuzzer process per core
     fuzz_info = None
     fz = getattr(mod, "FUZZ", None)
-    if fz and not merged["harness_errors"]:
+    if fz and not merged["harness_errors"] and not subpass:
         runs = int(fz.get(tier, 0))
         if runs > 0:
             r = run_atheris(modname, mod, seed, runs, nshards)
@@ -603,7 +664,7 @@ def main(modname, tier, seed):
     # ---- optional extra phase (fresh-interpreter batches etc.)
     extra = getattr(mod, "extra_phase", None)
     extra_info = None
-    if extra is not None and not merged["harness_errors"]:
+    if extra is not None and not merged["harness_errors"] and not subpass:
         r = extra(tier, seed, deadline)
         extra_info = r.pop("info", None)
         r.setdefault("enum_done", True)
@@ -647,6 +708,14 @@ def main(modname, tier, seed):
         out_lines.append(f"VIOLATION property={mod.ID} replay={path}")
         out_lines.append(f"  kind={kind} detail={str(detail)[:400]}")
 
+    opt_info = None
+    if not subpass and not sys.flags.optimize and os.environ.get("VERIF_OPT_PASS", "1") != "0":
+        opt_info, more = _optimised_interpreter_pass(mod, modname, tier, seed)
+        for path, kind, detail in more:
+            violations += 1
+            out_lines.append(f"VIOLATION property={mod.ID} replay={path}")
+            out_lines.append(f"  kind=under-python-O:{kind} detail={detail[:400]}")
+
     wall = time.time() - t0
     enum_scope = None
     enum = getattr(mod, "enumerate_cases", None)
@@ -673,6 +742,8 @@ def main(modname, tier, seed):
         coverage["extra"] = extra_info
     if fuzz_info:
         coverage["atheris"] = fuzz_info
+    if opt_info:
+        coverage["optimised_interpreter_pass"] = opt_info
     evidence = dict(
         property_id=mod.ID,
         tier=tier,
